@@ -1,6 +1,7 @@
 //! Harness: backends, model, engine and one module per property.
 pub mod engine;
 pub mod fsutil;
+pub mod history;
 pub mod r#gen;
 pub mod membe;
 pub mod model;
